@@ -56,6 +56,9 @@ pub struct Profile {
     /// reuse local names across namespaces and kinds (C09 profile)
     #[serde(default)]
     pub collide: bool,
+    /// namespace URIs whose last segments abbreviate alike (prefixes typ, typ1, typ2 ...)
+    #[serde(default)]
+    pub colliding_abbrev: bool,
 }
 
 impl Profile {
@@ -90,6 +93,7 @@ impl Profile {
             forward_refs: true,
             ext_bias: false,
             collide: false,
+            colliding_abbrev: false,
         }
     }
     /// switch a feature off by its tag name; returns false for an unknown tag
@@ -237,7 +241,7 @@ fn arb_ty() -> impl Strategy<Value = RawTy> {
 }
 
 fn arb_occ() -> impl Strategy<Value = RawOcc> {
-    (prop_oneof![3 => Just(0u8), 2 => Just(1u8), 1 => Just(2u8)], prop_oneof![4 => Just(0u8), 1 => Just(1u8), 1 => Just(2u8), 2 => Just(3u8)], 2u8..=5).prop_map(|(min, max, n)| RawOcc { min, max, n })
+    (prop_oneof![3 => Just(0u8), 2 => Just(1u8), 1 => Just(2u8)], prop_oneof![4 => Just(0u8), 1 => Just(1u8), 1 => Just(2u8), 2 => Just(3u8)], any::<u8>()).prop_map(|(min, max, n)| RawOcc { min, max, n })
 }
 
 fn arb_particle() -> impl Strategy<Value = RawParticle> {
@@ -354,6 +358,17 @@ impl B<'_> {
     fn comp_name(&mut self, file: usize, raw: &RawName, type_like: bool) -> Name {
         let k = self.ns_counter[file];
         self.ns_counter[file] += 1;
+        if raw.special != 0 && raw.special % 3 == 1 && self.p.keyword_names {
+            // a keyword (Capitalised or as is) as the name of a global component; at most one per
+            // keyword and namespace
+            let kw = KEYWORD_FIELD_NAMES[raw.special as usize % KEYWORD_FIELD_NAMES.len()];
+            let spelled = if raw.style % 2 == 0 { kw.to_string() } else { kw[..1].to_uppercase() + &kw[1..] };
+            let taken = self.files[file].comps.iter().any(|c| c.name.pascal().eq_ignore_ascii_case(kw));
+            if !taken && kw != "self" {
+                self.stats.feat("name.keyword-global-component");
+                return Name::raw(&spelled);
+            }
+        }
         if raw.special != 0 && type_like && self.p.std_names && k < STD_TYPE_NAMES.len() && raw.special % 3 == 0 {
             self.stats.feat("name.std-colliding");
             return Name::raw(STD_TYPE_NAMES[(raw.special as usize / 3) % STD_TYPE_NAMES.len()]);
@@ -430,7 +445,13 @@ impl B<'_> {
             2 => {
                 if self.p.max_occurs_n {
                     self.stats.feat("occ.max-n");
-                    MaxOcc::N(o.n.clamp(2, 5))
+                    // small bounds, and bounds around the widths a narrow counter type could have
+                    let pool: [u32; 10] = [2, 3, 4, 5, 255, 256, 1000, 65535, 65536, 100_000];
+                    let n = pool[o.n as usize % pool.len()];
+                    if n >= 255 {
+                        self.stats.feat("occ.max-n>=255");
+                    }
+                    MaxOcc::N(n)
                 } else {
                     self.stats.mask("max_occurs_n");
                     MaxOcc::Unbounded
@@ -535,7 +556,13 @@ impl B<'_> {
             }
         }
         let mut salt = rank * 5;
-        let parts: Vec<Particle> = b.parts.iter().filter_map(|p| self.particle(file, limit, p, &mut used, &mut salt, 0, false)).collect();
+        let mut parts: Vec<Particle> = b.parts.iter().filter_map(|p| self.particle(file, limit, p, &mut used, &mut salt, 0, false)).collect();
+        if base.is_some() && rank % 3 == 0 && self.p.choice {
+            // keep only a choice, if there is one: the extension's content is then a single choice
+            if let Some(c) = parts.iter().find(|p| matches!(p, Particle::Choice { .. })).cloned() {
+                parts = vec![c];
+            }
+        }
         let mut attrs = vec![];
         if self.p.attributes && (base.is_none() || self.p.ext_attrs) {
             for a in &b.attrs {
@@ -563,7 +590,14 @@ impl B<'_> {
         } else {
             None
         };
-        Body { base, seq, attrs }
+        let direct_choice = base.is_some()
+            && self.p.choice
+            && rank % 3 == 0
+            && seq.as_ref().is_some_and(|s| !s.min0 && !s.unbounded && s.parts.len() == 1 && matches!(s.parts[0], Particle::Choice { .. }));
+        if direct_choice {
+            self.stats.feat("extension.choice-directly-under-extension");
+        }
+        Body { base, seq, attrs, direct_choice }
     }
     fn facets(&mut self, base_builtin: Option<&str>, f: &RawFacets) -> Facets {
         if !self.p.facets {
@@ -645,7 +679,11 @@ pub fn build(raw: &RawModel, p: &Profile) -> (Model, BuildStats) {
         }
         b.files.push(SFile {
             name: if i == 0 { "main.xsd".to_string() } else { format!("part{i}.xsd") },
-            ns: format!("http://example.org/{}/{}", ["schemas", "svc", "data"][i % 3], SEGS[i % SEGS.len()]),
+            ns: if p.colliding_abbrev && raw.files[0].perm % 2 == 0 {
+                format!("http://example.org/{}/types", SEGS[i % SEGS.len()])
+            } else {
+                format!("http://example.org/{}/{}", ["schemas", "svc", "data"][i % 3], SEGS[i % SEGS.len()])
+            },
             imports,
             comps: vec![],
             own_prefix,
@@ -678,6 +716,9 @@ pub fn build(raw: &RawModel, p: &Profile) -> (Model, BuildStats) {
     }
     if b.files.len() > 1 {
         b.stats.feat("files>=2");
+        if p.colliding_abbrev && raw.files[0].perm % 2 == 0 {
+            b.stats.feat("ns.colliding-abbreviations");
+        }
     }
     if b.files.iter().any(|f| f.own_prefix.is_empty()) {
         b.stats.feat("ns.default-namespace");
@@ -979,6 +1020,77 @@ fn collide(m: &mut Model, raw: &RawModel, stats: &mut BuildStats) {
                 c.name = d.clone();
                 stats.feat("collision.same-local-name-in-two-namespaces");
                 break;
+            }
+        }
+    }
+    // (1b) the most treacherous case: a file refers to a type of another namespace (base or member
+    // type) and a type of its OWN namespace carries the same local name
+    {
+        let snapshot = m.clone();
+        for fj in 0..nfiles {
+            let mut targets: Vec<QRef> = vec![];
+            fn collect_ty(t: &TypeRef, out: &mut Vec<QRef>) {
+                if let TypeRef::Named(q) = t {
+                    out.push(*q);
+                }
+            }
+            fn collect_parts(ps: &[Particle], out: &mut Vec<QRef>) {
+                for p in ps {
+                    match p {
+                        Particle::Elem { ty, .. } => collect_ty(ty, out),
+                        Particle::Seq(s) => collect_parts(&s.parts, out),
+                        Particle::Choice { branches, .. } => collect_parts(branches, out),
+                        Particle::Ref { .. } => {}
+                    }
+                }
+            }
+            for c in &snapshot.files[fj].comps {
+                if let CompKind::Complex(b) | CompKind::ElementAnon(b) = &c.kind {
+                    if let Some(q) = b.base {
+                        targets.push(q);
+                    }
+                    if let Some(s) = &b.seq {
+                        collect_parts(&s.parts, &mut targets);
+                    }
+                }
+            }
+            // also what the referenced foreign types refer to themselves (their bases and member
+            // types are copied into this file's structs by inheritance)
+            for _ in 0..2 {
+                for q in targets.clone() {
+                    if let CompKind::Complex(b) | CompKind::ElementAnon(b) = &snapshot.comp(q).kind {
+                        if let Some(bq) = b.base {
+                            targets.push(bq);
+                        }
+                        if let Some(s) = &b.seq {
+                            collect_parts(&s.parts, &mut targets);
+                        }
+                    }
+                }
+            }
+            targets.sort();
+            targets.dedup();
+            targets.retain(|q| q.file != fj && snapshot.files[q.file].ns != snapshot.files[fj].ns && struct_like(snapshot.comp(*q)));
+            let Some(t) = targets.get(sel % targets.len().max(1)).copied() else { continue };
+            let tname = snapshot.comp(t).name.clone();
+            let taken: Vec<String> = m.files[fj].comps.iter().map(|c| c.name.pascal()).collect();
+            if taken.contains(&tname.pascal()) {
+                continue;
+            }
+            // rename a type of file fj that is itself complex (so it has members of its own)
+            if let Some(c) = m.files[fj].comps.iter_mut().filter(|c| matches!(c.kind, CompKind::Complex(_))).nth(sel % 2) {
+                c.name = tname;
+                stats.feat("collision.own-type-named-like-referenced-foreign-type");
+            }
+            // and a second one, when there is another foreign name in play
+            if let Some(t2) = targets.get((sel + 1) % targets.len().max(1)).copied().filter(|t2| *t2 != t) {
+                let n2 = snapshot.comp(t2).name.clone();
+                let taken: Vec<String> = m.files[fj].comps.iter().map(|c| c.name.pascal()).collect();
+                if !taken.contains(&n2.pascal()) {
+                    if let Some(c) = m.files[fj].comps.iter_mut().filter(|c| matches!(c.kind, CompKind::Complex(_) | CompKind::Simple(_))).nth((sel + 1) % 3) {
+                        c.name = n2;
+                    }
+                }
             }
         }
     }
